@@ -226,7 +226,7 @@ pub fn check(thorough: bool, _seed: u64) -> Check {
     {
         // long operands: 1..n and its even / odd / shifted sub-grids, n up to 9 (14 thorough)
         let mut long: Vec<Vec<f64>> = vec![];
-        for n in [6usize, 7, 9].into_iter().chain(if thorough { vec![12usize, 14] } else { vec![] }) {
+        for n in [6usize, 7, 9, 17, 33].into_iter().chain(if thorough { vec![12usize, 14, 65, 129] } else { vec![] }) {
             let full: Vec<f64> = (1..=n).map(|i| i as f64).collect();
             long.push(full.clone());
             long.push(full.iter().cloned().filter(|v| (*v as usize) % 2 == 0).collect());
@@ -238,7 +238,7 @@ pub fn check(thorough: bool, _seed: u64) -> Check {
             d[n - 1] = d[n - 2];
             long.push(d);
         }
-        phases.push(sym_phase("provenance-long-operands", long, json!({"operands": "every ordered pair among 1..n (n=6,7,9; 12,14 thorough), its even / odd / half-shifted sub-grids, its first half, its last end alone, and a copy with a duplicated last end"}), false));
+        phases.push(sym_phase("provenance-long-operands", long, json!({"operands": "every ordered pair among 1..n (n=6,7,9,17,33; 12,14,65,129 thorough), its even / odd / half-shifted sub-grids, its first half, its last end alone, and a copy with a duplicated last end"}), false));
     }
     if thorough {
         let v6 = shapes(&[1.0, 2.0, 3.0, 4.0, 5.0, 6.0], 6).into_iter().filter(|e| e.len() == 6 || e.len() <= 2).collect();
